@@ -20,7 +20,7 @@ EXPLANATION = (
 RULES = {
     'R1': 'sibling agreement of the admission predicate of the two walks (same resolved callee, same operands)',
     'R2': 'query and update variants share the implementation',
-    'R3': 'same address parser and error table',
+    'R3': 'same address parser and error table; address text passed to the parser unmodified in both endpoints',
     'R4': 'same delta accessors with the right signs',
     'R6': 'READERS(REACH(get_utxos, get_balance)) ∩ state fields ⊆ fields carried across upgrades (coverage table of C09)',
     'R5': 'the paged listing enumerates each UTXO once: inclusive scan bounds and key order (= C01.R6), resume offset and next_page (= C06.R5/R6)',
